@@ -2,6 +2,7 @@ package ag
 
 import (
 	"fmt"
+	"github.com/ethereum/go-ethereum/accounts/abi"
 	"math/big"
 	"math/rand"
 	"sort"
@@ -46,14 +47,15 @@ func initCode(rt []byte) []byte {
 }
 
 type stkInfo struct {
-	action string // delegate | undelegate | redelegate | withdraw | vote | voteweighted | vote+delegate
-	path   string // eoa | contract | forged | batch
-	actor  sdk.AccAddress
-	val    string
-	val2   string
-	amount *big.Int
-	propID uint64
-	option uint32
+	action  string // delegate | undelegate | redelegate | withdraw | vote | voteweighted | vote+delegate
+	path    string // eoa | contract | forged | batch
+	actor   sdk.AccAddress
+	val     string
+	val2    string
+	amount  *big.Int
+	propID  uint64
+	option  uint32
+	weights [][2]uint64 // weighted vote: (option, weight in percent)
 }
 
 func (w *world) setupStaking() error {
@@ -115,7 +117,26 @@ func (w *world) opStake(op kernel.Op) {
 	}
 	var target common.Address
 	var data []byte
-	switch kernel.Mod(op.Arg(1), 6) {
+	switch kernel.Mod(op.Arg(1), 7) {
+	case 6:
+		// weighted vote: well-formed splits, and splits the gov module refuses (total not 100 %, repeated
+		// option): a refused native action must revert the whole call
+		si.action = "voteweighted"
+		si.propID = w.someProposal(r)
+		shapes := [][][2]uint64{
+			{{1, 100}}, {{1, 30}, {2, 70}}, {{3, 50}, {4, 25}, {1, 25}}, // valid
+			{{1, 30}}, {{2, 100}, {3, 1}}, {{1, 60}, {1, 40}}, {{4, 99}}, {{2, 0}, {1, 100}}, // refused
+		}
+		si.weights = shapes[r.Intn(len(shapes))]
+		type ow struct {
+			Option uint32
+			Weight uint64
+		}
+		var opts []ow
+		for _, x := range si.weights {
+			opts = append(opts, ow{uint32(x[0]), x[1]})
+		}
+		target, data = govAddr, mustPack(govABI, weightedVoteMethod(), si.propID, opts)
 	case 0, 1:
 		si.action, target, data = "delegate", stakingAddr, mustPack(stakingABI, "delegate", si.val, si.amount)
 	case 2:
@@ -345,6 +366,26 @@ func (w *world) afterStake(in *intent, ok bool, vmErr, log string, pre, post *sn
 		}
 	case "vote":
 		expectVote()
+	case "voteweighted":
+		total, seen, valid := uint64(0), map[uint64]bool{}, true
+		var parts []string
+		for _, x := range si.weights {
+			if x[1] == 0 || x[1] > 100 || seen[x[0]] {
+				valid = false
+			}
+			seen[x[0]] = true
+			total += x[1]
+			parts = append(parts, fmt.Sprintf("%d:%s", x[0], sdk.NewDecWithPrec(int64(x[1]), 2)))
+		}
+		if total != 100 {
+			valid = false
+		}
+		key := fmt.Sprintf("vote|%s|%d", actor, si.propID)
+		if !valid {
+			w.rec.Violate("C17", "refused_native_action_committed", si.path+":voteweighted", "%s: the gov module refuses the options %v, yet the call succeeded (recorded vote %q)", in.desc, si.weights, post.stake[key])
+		} else if want := strings.Join(parts, ","); post.stake[key] != want {
+			w.rec.Violate("C17", "wrong_effect", si.path+":voteweighted", "%s succeeded but the recorded vote is %q, expected %q", in.desc, post.stake[key], want)
+		}
 	case "vote+delegate", "delegate+vote":
 		expectVote()
 		expect("del|"+actor+"|"+si.val, amt)
@@ -373,4 +414,14 @@ func (w *world) someProposal(r *rand.Rand) uint64 {
 		return w.props[r.Intn(len(w.props))].id
 	}
 	return 1 + uint64(r.Intn(6))
+}
+
+// weightedVoteMethod: the go-ethereum name of the overloaded vote(uint64,(uint32,uint64)[]) method.
+func weightedVoteMethod() string {
+	for name, m := range govABI.Methods {
+		if m.RawName == "vote" && len(m.Inputs) == 2 && m.Inputs[1].Type.T == abi.SliceTy {
+			return name
+		}
+	}
+	panic("weighted vote method not found")
 }
